@@ -140,9 +140,15 @@ def sol_line(cid, s, nvd, ncd):
     for kind, name, table, vals in set_order(s['sufs']):
         v = (reals(vals) if kind & 4 else ','.join(str(x) for x in vals)) or '-'
         sufs.append('%d:%s:%s:%s' % (kind, name.hex() or '-', table.hex() or '-', v))
-    return 'sol %s %d %d %d %s %s %d %d %s %s %d %d %s %s' % (
+    # integral reals |x| < 10^15 (except -0.0): the token and the integer, for the tie of the text model `encIntegralReal` to the real writer
+    ints = []
+    allreals = list(s['duals']) + list(s['primals']) + [v for k, _, _, vals in s['sufs'] if k & 4 for v in vals]
+    for x in allreals:
+        if math.isfinite(x) and x == math.floor(x) and abs(x) < 1e15 and not (x == 0 and math.copysign(1, x) < 0):
+            ints.append('%s:%d' % (fmt16(x).hex(), int(x)))
+    return 'sol %s %d %d %d %s %s %d %d %s %s %d %d %s %s ints=%s' % (
         cid, C14.FX[0], nvd, ncd, s['msg'].hex() or '-', ','.join(map(str, s['options'])) or '-', s['ncons'], s['nvars'],
-        reals(s['duals']), reals(s['primals']), s['objno'], s['status'], ';'.join(sufs) or '-', s.get('via', 'direct'))
+        reals(s['duals']), reals(s['primals']), s['objno'], s['status'], ';'.join(sufs) or '-', s.get('via', 'direct'), ','.join(ints) or '-')
 
 
 # ---------------------------------------------------------------- the property, evaluated on what the real writer+reader did
@@ -329,7 +335,7 @@ def run(ck):
         ck.add_violation('translator:sol-guards', 'the integer decisions / format strings of the SOL writer and reader could not be re-translated from the source: %s' % tr_err,
                          {'translator': 'translators/gen_solguards.py', 'output': tr_err}, found_input=False)
     proof_ok, failing = ck.proof_stage('MpVerif.C05.Props', 'MpVerif/C05/Props.lean', 'C05_',
-                                        ['MpVerif/C05/*.lean', 'MpVerif/C14/Model*.lean', 'MpVerif/C14/Lemmas*.lean', 'MpVerif/Gen/SolGuards.lean'], expect_min=22)
+                                        ['MpVerif/C05/*.lean', 'MpVerif/C14/Model*.lean', 'MpVerif/C14/Lemmas*.lean', 'MpVerif/Gen/SolGuards.lean'], expect_min=26)
     ck.log('proof stage: ok=%s failing=%s' % (proof_ok, failing[:12]))
     if ck.tier == 'thorough' and proof_ok:
         bad = ck.leanchecker(['MpVerif.C05.Props'])
@@ -369,6 +375,7 @@ def run(ck):
     n_roundtrip_ok = 0
     n_reals = 0
     n_good = 0
+    n_int = 0
     n_goodsuf = 0
     distinct = set()
     for k, ((s, nvd, ncd), il, ml) in enumerate(zip(cases, impl, model)):
@@ -386,6 +393,12 @@ def run(ck):
             continue
         ib, _, ir = il.partition(' || ')
         mb, _, mr = ml.partition(' || ')
+        mi = re.search(r' intok=(\d+)/(\d+) ', mb)
+        if mi:
+            mb = mb.replace(mi.group(0), ' ')
+            n_int += int(mi.group(2))
+            if mi.group(1) != mi.group(2):
+                corr_bad.append((cl, '', mb[:80], 'text model encIntegralReal differs from the token the writer prints for an integral real < 10^15: %s' % mi.group(0)))
         mg = re.search(r' good=(\d+)/(\d+) goodsuf=(\d+)/(\d+) ', mb)
         mb = mb.replace(mg.group(0), ' ') if mg else mb
         if mg and mg.group(3) != mg.group(4):
@@ -453,7 +466,7 @@ def run(ck):
                 'mp::ReadSOLFile; distinct = distinct event lists read back; compared with writeSol/readSol of the Lean model (bytes and events) and with the intent',
         'traces_validated_against_impl': len(cases) - len(corr_bad),
         'generator_families': fam, 'files_bytes_equal_model': n_bytes_equal, 'roundtrip_ok': n_roundtrip_ok, 'failure_classes': classes,
-        'reals_in_vectors': n_reals, 'reals_satisfying_GoodNum_hypothesis': n_good, 'suffix_reals_satisfying_GoodSufTok_hypothesis': n_goodsuf,
+        'reals_in_vectors': n_reals, 'reals_satisfying_GoodNum_hypothesis': n_good, 'integral_reals_matching_text_model': n_int, 'suffix_reals_satisfying_GoodSufTok_hypothesis': n_goodsuf,
         'codec_test': {'label': 'TEST (not proved): fmt {:.16} -> strtod/decstring on doubles', 'doubles': int(m.group(1)) if m else 0, 'bad': int(m.group(2)) if m else None},
         'correspondence': {'lines_compared_model_vs_impl': len(cases), 'disagreements': len(corr_bad)}, 'exhaustive': False,
         
